@@ -221,7 +221,12 @@ def _spec(e, arr, stats_none=None, have=None, norm_var=None, ip=None, f64=None, 
                 return S.lift(rank)
         return None
 
-    out = SC.canon_np(e)
+    def ident(x):
+        # asarray / asanyarray of an array is the array (the property speaks of arrays)
+        if SC.is_call(x, "numpy.asarray", "numpy.asanyarray", "numpy.ascontiguousarray") and len(x.args) == 2:
+            return x.args[1]
+        return None
+    out = SC.transform(SC.canon_np(e), ident)
     for _ in range(5):
         nxt = SC.fold_seq(SC.transform(out, fn))
         if nxt == out:
